@@ -32,8 +32,8 @@ RULE = ("turns: Hypothesis-generated worlds (graph, 0-5 episodes with unicode/pu
         "without the t4 kill switch), backend rulebased/llm, summary_tokens 0..128, ops_reflection 0..5/null, "
         "topk_snippets 0..3, embed, time_ms_reflection 1..6000/null with a scripted clock jump under/over it, compute "
         "real / raising (8 exception types, before or after the real call) / custom stage callable returning 0-4 "
-        "entries, index.add fault patterns, telemetry faults at 3 sites, fixture file ok/absent/empty/garbage/other/"
-        "blank; every turn also runs in a twin world (same pre-state, allow_reflection=false). Non-trivial = a turn with "
+        "entries, index.add fault patterns / state without memory_index, embedding adapter fault, telemetry faults at 3 "
+        "sites, fixture file ok/absent/empty/garbage/other/blank (hash learnt by a recording pre-pass); every turn also runs in a twin world (same pre-state, allow_reflection=false). Non-trivial = a turn with "
         "an open gate that wrote a non-empty summary, or an open gate with an injected failure. "
         "purity: 2-5 open-gate single turns per case drawn so that keys (agent, turn, slot, text) collide and differ in "
         "exactly one component; non-trivial = at least one equal-key pair and one differing pair of written entries. "
